@@ -140,7 +140,12 @@ def new_run_c04(rng, tier):
     spec, src = pick_spec(rng, tier)
     cfg = {'prop': 'C04', 'guards': findings.active_guards('C04'),
            'steps': rng.randint(3, 8) if src != 'corelang' else 3}
-    return cfg, {'spec': spec, 'source': src}
+    desc = {'spec': spec, 'source': src}
+    if src != 'corelang' and rng.random() < 0.25:
+        # one define is written twice with two values: the one that comes later in the
+        # text (after includes are put in place) is the one the source denotes
+        desc['dup_define'] = True
+    return cfg, desc
 
 
 def new_run_c17(rng, tier):
@@ -182,6 +187,15 @@ class SourceWorld(BaseWorld):
         n = self._oracle_errors_text(text)
         if n:
             raise SetupRejected('printer:not grammatical')
+        self.dup = None
+        if self.prop == 'C04' and desc.get('dup_define'):
+            k = len(self.decls)
+            self.decls = self.decls + [('define', '#note: "first"\n'), ('define', '#note: "second"\n')]
+            self.dup = (k, k + 1)
+            text = text + '#note: "first"\n#note: "second"\n'
+            self.expected = dict(self.expected)
+            self.expected['defines'] = dict(self.expected['defines'], note='second')
+            self.count('probe:define_written_twice')
         if self.prop == 'C04':
             self._compile_single(text)
         else:
@@ -190,7 +204,9 @@ class SourceWorld(BaseWorld):
             # (self-check of the harness; later reads may legitimately be skipped by the
             # code under test, e.g. by a cache, and are judged, not assumed)
             used = {'n': 0}
-            real = self.comp.FileStream
+            real = getattr(self.comp, 'FileStream', None)
+            if real is None:
+                from antlr4 import FileStream as real       # the name is gone: nothing to replace
 
             def counting(path, encoding='ascii', errors='strict'):
                 used['n'] += 1
@@ -202,9 +218,11 @@ class SourceWorld(BaseWorld):
                 self.comp.FileStream = real
             if o.raised:
                 raise SetupRejected('c17:valid program does not compile:' + o.exc_name())
-            if not used['n']:
-                from .engine import HarnessError
-                raise HarnessError('the FileStream seam of the compiler is not used any more')
+            self.no_seam = not used['n']
+            if self.no_seam:
+                # the compiler reads its files some other way: damaged *reads* cannot be
+                # injected; every damage is then written to disk (second directory) instead
+                self.count('probe:compiler_does_not_read_through_FileStream')
 
     def close(self):
         try:
@@ -234,7 +252,7 @@ class SourceWorld(BaseWorld):
         os.remove(out)
         return spec
 
-    def _write_layout(self, files, sub):
+    def _write_layout(self, files, sub, dot=False):
         d = os.path.join(self.dir, sub)
         os.makedirs(d, exist_ok=True)
         names = [f'f{i}.mal' for i in range(len(files))]
@@ -246,7 +264,8 @@ class SourceWorld(BaseWorld):
                         text += self.decls[x][1]
                 else:
                     if x < len(files):
-                        text += f'include "{names[x]}"\n'
+                        # ("./name" names the same file as "name": same directory)
+                        text += f'include "{"./" if dot else ""}{names[x]}"\n'
             with open(os.path.join(d, names[i]), 'w', encoding='utf-8') as f:
                 f.write(text)
         return names
@@ -327,7 +346,8 @@ class SourceWorld(BaseWorld):
             form = rng.choice(['name', 'dot', 'rel', 'abs'])
             how = weighted(rng, [(6, 'compiler'), (2, 'from_mal_spec'), (2, 'reuse'),
                                  (2, 'reuse_after_error')])
-            return {'op': 'compile_layout', 'files': files, 'path_form': form, 'how': how}
+            return {'op': 'compile_layout', 'files': files, 'path_form': form, 'how': how,
+                    'dot_includes': rng.random() < 0.2}
         # C17
         nfiles = len(self.files)
         target = rng.randrange(nfiles)
@@ -375,7 +395,9 @@ class SourceWorld(BaseWorld):
         self.nlayout += 1
         sub = f'lay{self.nlayout}'
         files = op['files']
-        names = self._write_layout(files, sub)
+        names = self._write_layout(files, sub, dot=bool(op.get('dot_includes')))
+        if op.get('dot_includes'):
+            self.count('probe:includes_written_with_dot_slash')
         d = os.path.join(self.dir, sub)
         form = op['path_form']
         try:
@@ -435,9 +457,27 @@ class SourceWorld(BaseWorld):
             raise Violation('C04.layout_invariant', f'{where}: syntax errors reported on a '
                                                     f'grammatical program: {self.last_stderr[:300]}')
         got = _norm_top(o.value)
-        if got != self.single:
+        exp = self.single
+        if self.dup is not None:
+            # expansion order of the layout: includes are put in place, the later define wins
+            seq = []
+
+            def expand(j, depth=0):
+                for kind, x in files[j]:
+                    if kind == 'd':
+                        seq.append(x)
+                    elif x < len(files) and depth < 40:
+                        expand(x, depth + 1)
+            expand(0)
+            last = max((i for i, x in enumerate(seq) if x in self.dup), default=None)
+            exp = dict(self.single)
+            exp['defines'] = dict(self.single['defines'],
+                                  note='first' if last is not None and seq[last] == self.dup[0] else 'second')
+            if exp['defines']['note'] == 'first':
+                self.count('probe:layout_puts_the_first_define_last')
+        if got != exp:
             raise Violation('C04.layout_invariant', f'{where}: result differs from the single-file '
-                                                    f'result\n' + _norm_diff(self.single, got))
+                                                    f'result\n' + _norm_diff(exp, got))
         if nf >= 2:
             self.multi_layouts += 1
             self.count('probe:multi_file_layout')
@@ -478,6 +518,11 @@ class SourceWorld(BaseWorld):
         d = os.path.join(self.dir, 'prog')
         with open(os.path.join(d, name), encoding='utf-8') as f:
             orig = f.read()
+        if getattr(self, 'no_seam', False):
+            if op['kind'] == 'eio':
+                self.count('out:not_injectable_without_the_seam')
+                return ['damaged_read', 'not_injectable', '']
+            return self.do_twin_dirs(op)
         if op['kind'] == 'eio':
             return self._unreadable_file(op, name, d)
         dmg = self._damage(orig, op)
